@@ -29,7 +29,7 @@ MODEL = "run"
 EQB = "(list_eqb event_eqb)"
 SHARD = 200
 RULE = ("recording plugin field format and check classes defined in the harness process and resolved by class name "
-        "('Rec') like built-ins x CIDs with 1..4 such fields (empty flag, length, allowed characters varied; delimited "
+        "('Rec') like built-ins - a tenth of the cases with classes created only at that moment, after many CIDs have been read in the process - x CIDs with 1..4 such fields (empty flag, length, allowed characters varied; delimited "
         "and fixed) and 0..3 such checks (accepting, vetoing a row, failing at the end) x tables of 0..6 rows x header "
         "0..2 x validation limit x the three modes x reader and writer x 1..3 repeated runs on one CID; the recorded "
         "call sequence (reset / validated_value / check_row / check_at_end / cleanup with their arguments) must equal "
@@ -59,7 +59,12 @@ def canon_log(log, spec):
 
 def make_case(inp):
     spec = inp["spec"]
-    cid = V.build_cid(spec)
+    try:
+        cid = V.build_cid(spec)
+    except Exception as e:  # noqa
+        # a CID that names existing plugin classes must load
+        return {"coq": P(P(V.coq_cid(spec), "[]"), "[]"), "obs": [["declaration-refused", "%s: %s" % (type(e).__name__, str(e)[:200])]],
+                "nontrivial": False, "tags": ["declaration-refused"]}
     del V.LOG[:]   # construction of the checks is not part of a run's protocol
     specs = []
     for r in inp["runs"]:
@@ -98,6 +103,8 @@ def make_case(inp):
 def direct_oracle(inp, obs):
     """protocol facts that need no model: validated_value never sees an empty or unstripped (fixed) value"""
     fixed = inp["spec"]["format"] == "fixed"
+    if obs and obs[0][0] == "declaration-refused":
+        return "the CID naming the plugin classes %r was refused: %s" % (inp["spec"].get("rec_name", "Rec"), obs[0][1])
     for e in obs:
         if e[0] == "value" and (e[2] == "" or (fixed and e[2] != e[2].strip())):
             return "validated_value was called with %r" % e[2]
@@ -118,4 +125,7 @@ def gen_inputs(tier, rnd):
                 if spec["format"] == "fixed":
                     rows = [[c.rstrip() or c for c in r] for r in rows]
                 runs.append({"kind": "write", "rows": rows, "close": rnd.random() < 0.7})
+        if rnd.random() < 0.1:
+            # plugin classes that come into being only now, long after the first CID of this process was read
+            spec["rec_name"] = "Late%d" % rnd.randrange(10 ** 9)
         yield {"spec": spec, "runs": runs}
